@@ -4,8 +4,8 @@ CONSTANT MaxD = 2
 CONSTANT MaxReq = 3
 CONSTANT MaxHdr = 1
 CONSTANT MaxBuf = 3
-CONSTANT MaxSent = 16
-CONSTANT NDs = {0, 2}
+CONSTANT MaxSent = 14
+CONSTANT NDs = {2}
 CONSTRAINT Bound
 VIEW View
 CHECK_DEADLOCK FALSE
